@@ -18,9 +18,11 @@ Definition dsig_call (dsig : node -> dsig_result) (el : node) : res (option node
   | DMissing => Err EMissingSignature
   | DErr => Err (EOther "signature verification failed")
   end.
-(* err == dsig.ErrMissingSignature *)
-Definition is_missing_signature (e : option err) : bool :=
-  match e with Some EMissingSignature => true | _ => false end.
+(* err == dsig.ErrMissingSignature: is_missing_signature, GenPrelude.v *)
+(* sp.validateElementSignature(el): the hand model of that function (Response.validate_element_signature) over the oracle;
+   its body is translated on its own (GenVctx.v) and tied to this model in P_GenVctx.v *)
+Definition ves_call (dsig : node -> dsig_result) (el : node) : res (option node) :=
+  dsig_call (validate_element_signature dsig) el.
 
 (* sp.decryptAssertions(el): mutates el in place; on success el is the tree with the plaintexts *)
 Definition decrypt_call (decrypt_all : node -> res node) (el : node) : res node := decrypt_all el.
